@@ -1,6 +1,6 @@
 SPECIFICATION Spec
 CONSTANTS
-  Names = {"DYN0", "DYN1"}
+  Names = {"DYN0", "dyn0"}
   BuiltinToks = {"PLUS", "NOT", "INCREMENT"}
   InfixLevels = {7}
   MaxCalls = 4
